@@ -25,7 +25,9 @@ pub fn json_escape(input: &[u8], mut out: Vec<u8>) -> Result<Vec<u8>, Error> {
                 0x5C => out.extend("\\\\".as_bytes()),
                 _ => {
                     if codepoint > 0x20 {
-                        panic!("unnecessary encoding requested");
+                        // Only reachable for malformed UTF-8 that decodes to a value
+                        // beyond U+10FFFF, which is not a character at all
+                        return Err(InnerError::Utf8Error.into());
                     }
                     // This violates NIP-01 which doesn't allow characters like 0x00
                     // even though JSON UTF-8 does.
